@@ -439,36 +439,59 @@ func init() {
 	// obtainable again. RetryAll forgets which chunks were returned; it must also release the allocation of
 	// every chunk that is not in the queue (its request died with the previous attempt's fetchers), or nobody
 	// asks for it again and the retry ends in the chunk timeout.
-	register("C14", "R11", "K9+K1", "RetryAll releases the allocation of every chunk that is not present", 3, func(c *Ctx) {
+	register("C14", "R11", "K2+K1", "a chunk fetcher that is stopped with its request outstanding gives the chunk's allocation back", 4, func(c *Ctx) {
 		w := c.W
-		f := c.fn("statesync", "chunkQueue.RetryAll")
+		// (a) the release step: forgets the allocation of a chunk that is not present
+		nRel := 0
+		var release *ssa.Function
+		for _, f := range w.methodsOf("statesync", "chunkQueue") {
+			if f.Parent() != nil || f.Name() == "discard" || f.Name() == "Discard" || f.Name() == "DiscardSender" || f.Name() == "Close" {
+				continue
+			}
+			for _, call := range rawCallsTo(w, f, "builtin#delete") {
+				if !strings.HasSuffix(w.expr(call.Common().Args[0]), ".chunkAllocated") {
+					continue
+				}
+				nRel++
+				release = f
+				key := q(w.expr(call.Common().Args[1]))
+				c.guards(f, call, funcKey(f)+" :: release an allocation", 0, guardCmp("the chunk is not in the queue", `\w+\.chunkFiles\[`+key+`\]`, "==", `""`))
+			}
+		}
+		if !c.Check(nRel == 1 && release != nil, "statesync.chunkQueue :: a step that releases the allocation of an absent chunk exists", "-", "one release step", fmt.Sprintf("%d", nRel)) {
+			return
+		}
+		// (b) the fetcher: from the moment it has requested a chunk, every way out of the routine passes the
+		// release (or a new Allocate, which is only reached after the chunk arrived)
+		f := c.fn("statesync", "syncer.fetchChunks")
 		if f == nil {
 			return
 		}
 		fk := funcKey(f)
-		reset := false
-		for _, fs := range w.fieldStoresIn(f, "statesync", "chunkQueue", "chunkReturned") {
-			if _, ok := stripConv(fs.Store.Val).(*ssa.MakeMap); ok {
-				reset = true
-			}
+		reqs := w.callsTo(f, "statesync#syncer.requestChunk")
+		c.Check(len(reqs) >= 1, fk+" :: request site found", w.pos(f.Pos()), ">= 1", fmt.Sprintf("%d", len(reqs)))
+		for _, rq := range reqs {
+			q := &pathQ{kill: func(in ssa.Instruction) bool {
+				call, ok := in.(ssa.CallInstruction)
+				if !ok {
+					return false
+				}
+				h := staticCallee(call)
+				return h != nil && (h == release || h.Name() == "Allocate")
+			}, target: func(in ssa.Instruction) bool { return isReturn(in) && in.Block().Comment != "recover" }}
+			hit, path := q.reach(rq.Block(), instrIndex(rq)+1)
+			c.Check(hit == nil, fk+" :: a stopped fetcher gives its outstanding chunk back", w.ipos(rq), "Release(index) before every exit with a request outstanding", "the fetcher can exit with its request outstanding and the chunk still allocated (nobody requests it again after RETRY_SNAPSHOT): "+pathStr(w, path))
 		}
-		c.Check(reset, fk+" :: forgets which chunks were handed to the app", w.pos(f.Pos()), "chunkReturned reset", "chunkReturned is not reset")
-		n := 0
-		for _, call := range w.callsTo(f, "builtin#delete") {
-			if !strings.HasSuffix(w.expr(call.Common().Args[0]), ".chunkAllocated") {
-				continue
-			}
-			n++
-			key := q(w.expr(call.Common().Args[1]))
-			c.guards(call.Parent(), call, fk+" :: release an allocation", 0, guardCmp("the chunk is not in the queue", `\w+\.chunkFiles\[`+key+`\]`, "==", `""`))
-			// every allocation is looked at: the enclosing loop ranges over chunkAllocated and is not left early
-			for _, b := range call.Parent().Blocks {
-				if isLoopHead(b) && loopBlocks(b)[call.Block()] {
-					c.Check(len(loopEarlyExits(b)) == 0, fk+" :: every allocation is examined", w.ipos(call), "no early exit", "the loop over the allocations can be left early")
+		// RetryAll still forgets which chunks were handed to the app
+		if g := c.fn("statesync", "chunkQueue.RetryAll"); g != nil {
+			reset := false
+			for _, fs := range w.fieldStoresIn(g, "statesync", "chunkQueue", "chunkReturned") {
+				if _, ok := stripConv(fs.Store.Val).(*ssa.MakeMap); ok {
+					reset = true
 				}
 			}
+			c.Check(reset, funcKey(g)+" :: forgets which chunks were handed to the app", w.pos(g.Pos()), "chunkReturned reset", "chunkReturned is not reset")
 		}
-		c.Check(n == 1, fk+" :: orphaned allocations are released", w.pos(f.Pos()), "delete(chunkAllocated, i) for absent chunks", "allocations of chunks whose request died with the previous attempt are kept: the chunk is never requested again")
 	})
 
 	// ------------------------------------------------------------------ C14.R6
